@@ -24,7 +24,10 @@ Fixpoint nodupz (l : list Z) : bool :=
   match l with [] => true | x :: t => negb (memz x t) && nodupz t end.
 
 (* one dtype of a case: model input + the features of that dtype returned by the implementation *)
-Record tcase := mkT { tc_in : tin; tc_out : list nat }.
+(* tc_fragile: some quantitative association is exactly equal to thresh_corr and pandas' float for
+   it is above / not above the threshold depending on the column order (rounding noise): the
+   implementation may decide either way *)
+Record tcase := mkT { tc_in : tin; tc_out : list nat; tc_fragile : bool }.
 
 Inductive ierr := IOk | IAssert | IInternal.
 
@@ -158,5 +161,6 @@ Definition C14_b (c : c14case) : bool :=
    reason: otherwise a regression on a configuration hit by a known finding would be masked *)
 Definition verdict (c : c14case) : nat :=
   if agree c then (if C14_b c then 0%nat else 2%nat)
-  else if existsb (fun tc => has_ties (tc_in tc)) (c_types c) then (if C14_b c then 4%nat else 2%nat)
+  else if existsb (fun tc => has_ties (tc_in tc) || tc_fragile tc) (c_types c)
+       then (if C14_b c then 4%nat else 2%nat)
   else 1%nat.
